@@ -31,8 +31,8 @@ MODELLED = ("Directory, DirectoryComputation, Discovery, DiscoveryComputation ar
             "checked by the correspondence run and the Python oracle only.")
 META = dict(
     level_text=("Proof (Coq) over an executable model of discovery.py plugged into the generic asynchronous network "
-                "(Net.v): for every history of Discovery operations (any except unregister_agent and "
-                "register_computation without an address), every subscriber, start order and per-channel-FIFO "
+                "(Net.v): for every history of Discovery operations (any except unregister_agent, "
+                "register_computation without an address and unregister_computation naming an agent), every subscriber, start order and per-channel-FIFO "
                 "schedule along which the directory holds an address for the agent of every computation it lists, "
                 "an in-flight invariant holds and, whenever nothing travels between a subscriber and the "
                 "directory, the subscriber's entry for each computation it is subscribed to and the directory "
